@@ -23,10 +23,11 @@ def stepC20 (line : String) : String :=
   | "column" =>
     match a.rat? "droad", a.rat? "kroad", a.rat? "croad", a.rats? "depths" with
     | some droad, some kroad, some croad, some depths =>
-      match groundColumn (1/20) (1/100) (1/1000000000000000) droad kroad croad 1 2000000 depths with
-      | some (ls, idx) =>
+      match columnOutcome (1/20) (1/100) (1/1000000000000000) droad kroad croad 1 2000000 depths with
+      | .ok ls idx =>
         "ok " ++ fmtLays ls ++ " idx=" ++ (match idx with | some i => toString i | none => "unset")
-      | none => "err index"
+      | .index => "err index"
+      | .refused => "err refused"
     | _, _, _, _ => "bad-args"
   | _ => "bad-op"
 
